@@ -9,42 +9,34 @@ Record traffic_entry := { te_data : option bytes; te_record : tls_record; te_iss
 
 Inductive version_attr := VUndefined | VSet (v : tls_version).    (* self.tls_version: TlsVersion.UNDEFINED until a ServerHello sets it *)
 
-Record tsession := {
-  ts_server_ip : bytes; ts_server_port : Z; ts_server_mac : bytes;
-  ts_client_ip : bytes; ts_client_port : Z; ts_client_mac : bytes; ts_ipv6 : bool;
-  ts_packet_buffer : list packet; ts_seen_server : list Z; ts_seen_client : list Z;
-  ts_server_pbuf : list packet; ts_client_pbuf : list packet;
+(* the part of a Session the record handlers read and write (decrypt()-time state) *)
+Record tcore := {
   ts_can_decrypt : bool; ts_client_hello_seen : bool; ts_server_cc : bool; ts_client_cc : bool;
   ts_client_random : bytes; ts_version : version_attr;
   ts_extensions : list (bytes * bytes); ts_compression : Z;
   ts_decryptor : option decryptor;
   ts_traffic : list traffic_entry }.
 
-Definition from_server (s : tsession) (p : packet) : bool :=
-  ip_eqb (p_src p) (ts_server_ip s) && (p_sport p =? ts_server_port s).
+(* a Session: endpoint identity (fixed by the first packet), the buffered packets with the duplicate memory, and the core *)
+Record tsession := {
+  ts_server_ip : bytes; ts_server_port : Z; ts_server_mac : bytes;
+  ts_client_ip : bytes; ts_client_port : Z; ts_client_mac : bytes; ts_ipv6 : bool;
+  ts_packet_buffer : list packet; ts_seen_server : list Z; ts_seen_client : list Z;
+  ts_core : tcore }.
+
+Definition from_server_id (server_ip : bytes) (server_port : Z) (p : packet) : bool :=
+  ip_eqb (p_src p) server_ip && (p_sport p =? server_port).
+Definition from_server (s : tsession) (p : packet) : bool := from_server_id (ts_server_ip s) (ts_server_port s) p.
 
 (* ---- record-level helpers to rebuild the record with one field changed ---- *)
-Definition upd (s : tsession) (can ch scc ccc : bool) (cr : bytes) (v : version_attr) (ext : list (bytes * bytes)) (comp : Z)
-           (d : option decryptor) (tr : list traffic_entry) : tsession :=
-  {| ts_server_ip := ts_server_ip s; ts_server_port := ts_server_port s; ts_server_mac := ts_server_mac s;
-     ts_client_ip := ts_client_ip s; ts_client_port := ts_client_port s; ts_client_mac := ts_client_mac s; ts_ipv6 := ts_ipv6 s;
-     ts_packet_buffer := ts_packet_buffer s; ts_seen_server := ts_seen_server s; ts_seen_client := ts_seen_client s;
-     ts_server_pbuf := ts_server_pbuf s; ts_client_pbuf := ts_client_pbuf s;
-     ts_can_decrypt := can; ts_client_hello_seen := ch; ts_server_cc := scc; ts_client_cc := ccc;
+Definition upd (s : tcore) (can ch scc ccc : bool) (cr : bytes) (v : version_attr) (ext : list (bytes * bytes)) (comp : Z)
+           (d : option decryptor) (tr : list traffic_entry) : tcore :=
+  {| ts_can_decrypt := can; ts_client_hello_seen := ch; ts_server_cc := scc; ts_client_cc := ccc;
      ts_client_random := cr; ts_version := v; ts_extensions := ext; ts_compression := comp;
      ts_decryptor := d; ts_traffic := tr |}.
-Definition set_can (s : tsession) (b : bool) := upd s b (ts_client_hello_seen s) (ts_server_cc s) (ts_client_cc s) (ts_client_random s) (ts_version s) (ts_extensions s) (ts_compression s) (ts_decryptor s) (ts_traffic s).
-Definition set_dec (s : tsession) (d : option decryptor) := upd s (ts_can_decrypt s) (ts_client_hello_seen s) (ts_server_cc s) (ts_client_cc s) (ts_client_random s) (ts_version s) (ts_extensions s) (ts_compression s) d (ts_traffic s).
-Definition add_traffic (s : tsession) (e : traffic_entry) := upd s (ts_can_decrypt s) (ts_client_hello_seen s) (ts_server_cc s) (ts_client_cc s) (ts_client_random s) (ts_version s) (ts_extensions s) (ts_compression s) (ts_decryptor s) (ts_traffic s ++ [e]).
-Definition set_pbufs (s : tsession) (sb cb : list packet) : tsession :=
-  {| ts_server_ip := ts_server_ip s; ts_server_port := ts_server_port s; ts_server_mac := ts_server_mac s;
-     ts_client_ip := ts_client_ip s; ts_client_port := ts_client_port s; ts_client_mac := ts_client_mac s; ts_ipv6 := ts_ipv6 s;
-     ts_packet_buffer := ts_packet_buffer s; ts_seen_server := ts_seen_server s; ts_seen_client := ts_seen_client s;
-     ts_server_pbuf := sb; ts_client_pbuf := cb;
-     ts_can_decrypt := ts_can_decrypt s; ts_client_hello_seen := ts_client_hello_seen s; ts_server_cc := ts_server_cc s; ts_client_cc := ts_client_cc s;
-     ts_client_random := ts_client_random s; ts_version := ts_version s; ts_extensions := ts_extensions s; ts_compression := ts_compression s;
-     ts_decryptor := ts_decryptor s; ts_traffic := ts_traffic s |}.
-
+Definition set_can (s : tcore) (b : bool) := upd s b (ts_client_hello_seen s) (ts_server_cc s) (ts_client_cc s) (ts_client_random s) (ts_version s) (ts_extensions s) (ts_compression s) (ts_decryptor s) (ts_traffic s).
+Definition set_dec (s : tcore) (d : option decryptor) := upd s (ts_can_decrypt s) (ts_client_hello_seen s) (ts_server_cc s) (ts_client_cc s) (ts_client_random s) (ts_version s) (ts_extensions s) (ts_compression s) d (ts_traffic s).
+Definition add_traffic (s : tcore) (e : traffic_entry) := upd s (ts_can_decrypt s) (ts_client_hello_seen s) (ts_server_cc s) (ts_client_cc s) (ts_client_random s) (ts_version s) (ts_extensions s) (ts_compression s) (ts_decryptor s) (ts_traffic s ++ [e]).
 Section Sess.
 Variable C : Crypto.
 Variable suite_table : list (Z * string).
@@ -53,11 +45,11 @@ Variable keylog : list secret.          (* the module-level key log at decrypt()
 Variable exp_meta : bool.
 
 (* find_session_secrets: the lines whose client random equals this session's, in key-log order *)
-Definition find_session_secrets (s : tsession) : list secret :=
+Definition find_session_secrets (s : tcore) : list secret :=
   filter (fun k => bytes_eqb (s_random k) (ts_client_random s)) keylog.
 
 (* generate_keys *)
-Definition generate_keys (s : tsession) (v : tls_version) (ciphersuite : bytes) (server_random : bytes) : result tsession :=
+Definition generate_keys (s : tcore) (v : tls_version) (ciphersuite : bytes) (server_random : bytes) : result tcore :=
   match split_cipher_suite suite_table suite_parts (from_be ciphersuite) with
   | None => Ok (set_can s false)
   | Some cs =>
@@ -79,7 +71,7 @@ Definition generate_keys (s : tsession) (v : tls_version) (ciphersuite : bytes) 
     end
   end.
 
-Definition handle_tls_client_hello (s : tsession) (r : tls_record) : tsession :=
+Definition handle_tls_client_hello (s : tcore) (r : tls_record) : tcore :=
   upd s false true false false (slice (r_body r) 6 38) (ts_version s) (ts_extensions s) (ts_compression s) (ts_decryptor s) (ts_traffic s).
 
 (* the extension walk: bounded by the declared length; a dict, so a later duplicate replaces the earlier value *)
@@ -96,7 +88,7 @@ Fixpoint ext_walk (fuel : nat) (bin : bytes) (i total : Z) (acc : list (bytes * 
 Definition ext_get (k : bytes) (l : list (bytes * bytes)) : option bytes :=
   match find (fun e => bytes_eqb (fst e) k) l with Some e => Some (snd e) | None => None end.
 
-Definition handle_tls_server_hello (s : tsession) (r : tls_record) : result tsession :=
+Definition handle_tls_server_hello (s : tcore) (r : tls_record) : result tcore :=
   let b := r_body r in
   (* without a ClientHello there is no client random to look keys up with; truncated hellos are ignored *)
   if negb (ts_client_hello_seen s) then Ok s else
@@ -107,9 +99,12 @@ Definition handle_tls_server_hello (s : tsession) (r : tls_record) : result tses
   if len b <? idx + 3 then Ok (set_can s false) else
   let ciphersuite := slice b idx (idx + 2) in
   let compression := nth (Z.to_nat (idx + 2)) b 0 in
-  let extensions_length := from_be (slice b (idx + 3) (idx + 5)) in
-  let extensions_bin := slice b (idx + 5) (idx + 5 + extensions_length) in
-  let exts := ext_walk (S (Z.to_nat (len b))) extensions_bin 0 (len extensions_bin) [] in
+  (* the optional extensions field ends with the ServerHello message, not with the record *)
+  let message_end := 4 + from_be (slice b 1 4) in
+  let has_ext := idx + 5 <=? message_end in
+  let extensions_length := if has_ext then from_be (slice b (idx + 3) (idx + 5)) else 0 in
+  let extensions_bin := if has_ext then slice b (idx + 5) (Z.min (idx + 5 + extensions_length) message_end) else [] in
+  let exts := ext_walk (S (Z.to_nat extensions_length)) extensions_bin 0 extensions_length [] in
   let is_tls13 := match ext_get [0; 43] exts with Some v => bytes_eqb v [3; 4] | None => false end in
   let s1 := upd s true true (ts_server_cc s) (ts_client_cc s) (ts_client_random s) (ts_version s) exts compression (ts_decryptor s) (ts_traffic s) in
   let rv := from_be (r_version r) in
@@ -124,7 +119,7 @@ Definition handle_tls_server_hello (s : tsession) (r : tls_record) : result tses
   end.
 
 (* handle_handshake_finished; every exception inside is caught by the caller, leaving the session as it was *)
-Definition handle_handshake_finished (s : tsession) (r : tls_record) (isserver : bool) : tsession :=
+Definition handle_handshake_finished (s : tcore) (r : tls_record) (isserver : bool) : tcore :=
   match ts_decryptor s with
   | None => s
   | Some d =>
@@ -140,16 +135,16 @@ Definition handle_handshake_finished (s : tsession) (r : tls_record) (isserver :
       else s            (* exp_meta and an unbound _plaintext: UnboundLocalError, caught *)
   end.
 
-Definition handle_tls_handshake_record (s : tsession) (r : tls_record) (isserver : bool) : result tsession :=
+Definition handle_tls_handshake_record (s : tcore) (r : tls_record) (isserver : bool) : result tcore :=
   if ts_server_cc s || ts_client_cc s then Ok (handle_handshake_finished s r isserver)
   else match r_body r with
        | [] => Ok s                                   (* empty handshake record: ignored *)
-       | 1 :: _ => Ok (handle_tls_client_hello s r)
-       | 2 :: _ => handle_tls_server_hello s r
-       | _ => Ok (handle_handshake_finished s r isserver)
+       | t :: _ => if t =? 1 then Ok (handle_tls_client_hello s r)
+                   else if t =? 2 then handle_tls_server_hello s r
+                   else Ok (handle_handshake_finished s r isserver)
        end.
 
-Definition handle_alert (s : tsession) (alert_level : Z) : tsession :=
+Definition handle_alert (s : tcore) (alert_level : Z) : tcore :=
   if (alert_level =? 1) && negb (match ts_version s with VSet TLS13 => true | _ => false end) then s
   else upd s false false (ts_server_cc s) (ts_client_cc s) (ts_client_random s) (ts_version s) (ts_extensions s) (ts_compression s) (ts_decryptor s) (ts_traffic s).
 
@@ -169,27 +164,29 @@ Fixpoint hs13_walk (fuel : nat) (d : decryptor) (pt : bytes) (i : Z) (isserver :
     end
   else Ok d.
 
-Definition handle_tls_13_application_record (s : tsession) (d : decryptor) (r : tls_record) (isserver : bool) : tsession :=
+Definition handle_tls_13_application_record (s : tcore) (d : decryptor) (r : tls_record) (isserver : bool) : tcore :=
   match decrypt C d r isserver with
   | Ok (d', Some pt0) =>
       let pt := strip_padding pt0 in
       let s' := set_dec s (Some d') in
       match rev pt with
-      | 22 :: body_rev =>
-          (* the walk may fail half-way (caught): keys updated so far stay updated *)
-          let body := rev body_rev in
-          match hs13_walk (S (List.length body)) d' body 0 isserver with
-          | Ok d'' => set_dec s' (Some d'')
-          | Exn _ => s'      (* see hs13_partial below for the state left behind *)
-          end
-      | 23 :: body_rev => add_traffic s' {| te_data := Some (rev body_rev); te_record := r; te_isserver := isserver |}
-      | _ => s'
+      | [] => s'
+      | t :: body_rev =>
+          if t =? 22 then
+            (* update_keys can only fail on its first call for a side (a missing key), so nothing is half-done *)
+            let body := rev body_rev in
+            match hs13_walk (S (List.length body)) d' body 0 isserver with
+            | Ok d'' => set_dec s' (Some d'')
+            | Exn _ => s'
+            end
+          else if t =? 23 then add_traffic s' {| te_data := Some (rev body_rev); te_record := r; te_isserver := isserver |}
+          else s'
       end
   | Ok (d', None) => set_dec s (Some d')     (* plaintext[-1:] on None: TypeError, caught *)
   | Exn _ => s
   end.
 
-Definition handle_tls_application_record (s : tsession) (d : decryptor) (r : tls_record) (isserver : bool) : tsession :=
+Definition handle_tls_application_record (s : tcore) (d : decryptor) (r : tls_record) (isserver : bool) : tcore :=
   match decrypt C d r isserver with
   | Ok (d', pt) => add_traffic (set_dec s (Some d')) {| te_data := pt; te_record := r; te_isserver := isserver |}
   | Exn _ => s
@@ -198,7 +195,7 @@ Definition handle_tls_application_record (s : tsession) (d : decryptor) (r : tls
 Definition meta_entry (r : tls_record) (isserver : bool) : traffic_entry :=
   {| te_data := Some (r_raw r); te_record := r; te_isserver := isserver |}.
 
-Definition handle_tls_record (s : tsession) (r : tls_record) (isserver : bool) : result tsession :=
+Definition handle_tls_record (s : tcore) (r : tls_record) (isserver : bool) : result tcore :=
   if r_type r =? 0x16 then
     do s' <- handle_tls_handshake_record s r isserver;
     Ok (if exp_meta then add_traffic s' (meta_entry r isserver) else s')
@@ -221,20 +218,25 @@ Definition handle_tls_record (s : tsession) (r : tls_record) (isserver : bool) :
     Ok (if exp_meta then add_traffic s' (meta_entry r isserver) else s')
   else Ok s.
 
-Fixpoint handle_records (s : tsession) (rs : list tls_record) (isserver : bool) : result tsession :=
+Fixpoint handle_records (s : tcore) (rs : list tls_record) (isserver : bool) : result tcore :=
   match rs with [] => Ok s | r :: t => do s' <- handle_tls_record s r isserver; handle_records s' t isserver end.
 
-(* one step of get_tls_records: a buffered packet is appended to its direction's buffer, framed, and the records handled *)
-Definition feed_packet (s : tsession) (p : packet) : result tsession :=
-  if from_server s p then
-    do r <- extract (ts_server_pbuf s ++ [p]);
-    let '(buf, recs) := r in handle_records (set_pbufs s buf (ts_client_pbuf s)) recs true
-  else
-    do r <- extract (ts_client_pbuf s ++ [p]);
-    let '(buf, recs) := r in handle_records (set_pbufs s (ts_server_pbuf s) buf) recs false.
+(* one step of get_tls_records: a buffered packet is appended to its direction's buffer (server_packet_buffer /
+   client_packet_buffer, which no record handler ever touches), framed, and the released records are handled *)
+Record rstate := { rs_server_pbuf : list packet; rs_client_pbuf : list packet; rs_core : tcore }.
 
-Fixpoint get_tls_records (s : tsession) (ps : list packet) : result tsession :=
-  match ps with [] => Ok s | p :: t => do s' <- feed_packet s p; get_tls_records s' t end.
+Definition feed_packet (server_ip : bytes) (server_port : Z) (st : rstate) (p : packet) : result rstate :=
+  if from_server_id server_ip server_port p then
+    do r <- extract (rs_server_pbuf st ++ [p]);
+    do c <- handle_records (rs_core st) (snd r) true;
+    Ok {| rs_server_pbuf := fst r; rs_client_pbuf := rs_client_pbuf st; rs_core := c |}
+  else
+    do r <- extract (rs_client_pbuf st ++ [p]);
+    do c <- handle_records (rs_core st) (snd r) false;
+    Ok {| rs_server_pbuf := rs_server_pbuf st; rs_client_pbuf := fst r; rs_core := c |}.
+
+Fixpoint get_tls_records (server_ip : bytes) (server_port : Z) (st : rstate) (ps : list packet) : result rstate :=
+  match ps with [] => Ok st | p :: t => do st' <- feed_packet server_ip server_port st p; get_tls_records server_ip server_port st' t end.
 End Sess.
 
 Definition matches_session (s : tsession) (p : packet) : bool :=
@@ -251,10 +253,12 @@ Definition session_handle_packet (s : tsession) (p : packet) : tsession :=
      ts_packet_buffer := ts_packet_buffer s ++ [p];
      ts_seen_server := if srv then ts_seen_server s ++ [p_seq p] else ts_seen_server s;
      ts_seen_client := if srv then ts_seen_client s else ts_seen_client s ++ [p_seq p];
-     ts_server_pbuf := ts_server_pbuf s; ts_client_pbuf := ts_client_pbuf s;
-     ts_can_decrypt := ts_can_decrypt s; ts_client_hello_seen := ts_client_hello_seen s; ts_server_cc := ts_server_cc s; ts_client_cc := ts_client_cc s;
-     ts_client_random := ts_client_random s; ts_version := ts_version s; ts_extensions := ts_extensions s; ts_compression := ts_compression s;
-     ts_decryptor := ts_decryptor s; ts_traffic := ts_traffic s |}.
+     ts_core := ts_core s |}.
+
+Definition core0 : tcore :=
+  {| ts_can_decrypt := false; ts_client_hello_seen := false; ts_server_cc := false; ts_client_cc := false;
+     ts_client_random := []; ts_version := VUndefined; ts_extensions := []; ts_compression := 0;
+     ts_decryptor := None; ts_traffic := [] |}.
 
 (* Session.__init__ + set_client_and_server_ports + the first handle_packet *)
 Definition new_session (p : packet) (server_ports : list Z) : tsession :=
@@ -264,8 +268,4 @@ Definition new_session (p : packet) (server_ports : list Z) : tsession :=
      ts_server_mac := if from_srv then p_smac p else p_dmac p;
      ts_client_ip := if from_srv then p_dst p else p_src p; ts_client_port := if from_srv then p_dport p else p_sport p;
      ts_client_mac := if from_srv then p_dmac p else p_smac p; ts_ipv6 := p_v6 p;
-     ts_packet_buffer := []; ts_seen_server := []; ts_seen_client := [];
-     ts_server_pbuf := []; ts_client_pbuf := [];
-     ts_can_decrypt := false; ts_client_hello_seen := false; ts_server_cc := false; ts_client_cc := false;
-     ts_client_random := []; ts_version := VUndefined; ts_extensions := []; ts_compression := 0;
-     ts_decryptor := None; ts_traffic := [] |} p.
+     ts_packet_buffer := []; ts_seen_server := []; ts_seen_client := []; ts_core := core0 |} p.
